@@ -528,7 +528,9 @@ def run(pid, tier, seed, rep, info):
         cases = list(known.witness_cases()) + list(cases_for(pid, tier, rng))
         progs = [(l, d.get("files")) for l, d in cases]
         I = asmlib.impl_batch(progs)
-        M = asmlib.model_batch(progs)
+        # source text outside Latin-1 is outside the model's alphabet: those cases are judged on the implementation alone
+        M = asmlib.model_batch([((l, f) if not d.get("impl_only") else ([" NOP\n"], None)) for (l, f), (_, d) in zip(progs, cases)])
+        M = [i if d.get("impl_only") else m for (_, d), i, m in zip(cases, I, M)]
         for (lines, desc), i, m in zip(cases, I, M):
             key = "".join(lines)
             rep.count(key, nontrivial=(i[0] == "OK"))
